@@ -273,17 +273,19 @@ class Harness:
     def __init__(self, sims: Tuple[str, ...], statuses: Tuple[str, ...] = ("502", "499", "404"), undef: bool = True,
                  inject: Tuple[str, ...] = ("ev", "msg"), teardown: bool = True, rep: bool = True, lost: bool = True,
                  label: str = "", n_regions: int = 1, swallows: Tuple[str, ...] = ("none", "first", "all"),
-                 midtd: Optional[bool] = None, midtd_sw: Tuple[str, ...] = ("all",)):
+                 midtd: Optional[bool] = None, midtd_sw: Tuple[str, ...] = ("all",),
+                 midtd_sims: Optional[Tuple[str, ...]] = None):
         self.sims, self.statuses, self.undef = tuple(sims), tuple(statuses), undef
         self.inject, self.teardown, self.rep, self.lost = tuple(inject), teardown, rep, lost
         self.label, self.n_regions, self.swallows = label, n_regions, tuple(swallows)
         self.midtd = teardown if midtd is None else midtd      # teardown between the two legs of one poll ...
         self.midtd_sw = tuple(midtd_sw)                        # ... enumerated for these swallow modes
+        self.midtd_sims = tuple(midtd_sims) if midtd_sims is not None else self.sims      # ... and these answers
 
     def config(self) -> Dict[str, Any]:
         return {"sims": list(self.sims), "statuses": list(self.statuses), "undef": self.undef, "inject": list(self.inject),
                 "teardown": self.teardown, "rep": self.rep, "lost": self.lost, "n_regions": self.n_regions,
-                "swallows": list(self.swallows), "midtd": self.midtd, "midtd_sw": list(self.midtd_sw)}
+                "swallows": list(self.swallows), "midtd": self.midtd, "midtd_sw": list(self.midtd_sw), "midtd_sims": list(self.midtd_sims)}
 
     # ------------------------------------------------------------------------------------------ explorer API
     def fresh(self) -> World:
@@ -321,7 +323,7 @@ class Harness:
                         emptied = sw == "all" and not m.pending
                         if self.lost and not emptied:
                             evs.append(("poll", am, sim, sw, "lost") + suffix)
-                        if self.midtd and am == "cur" and m.torn_down < 1 and sw in self.midtd_sw:
+                        if self.midtd and am == "cur" and m.torn_down < 1 and sw in self.midtd_sw and sim in self.midtd_sims:
                             evs.append(("poll", am, sim, sw, "tdok") + suffix)
                 if self.undef:
                     evs.append(("poll", am, "undef", "none", "ok") + suffix)
@@ -642,18 +644,19 @@ class Harness:
 # ---------------------------------------------------------------------------------------------------- searches
 def searches(tier: str):
     """(harness, depth, deviation bound). Quick is the same space with smaller bounds / menus."""
+    ANN1 = ("eac", "es", "tf", "cr", "tf0")       # mid-poll teardown is enumerated for the single-announcement answers
     multi = dict(statuses=(), inject=("ev",), rep=False, lost=False, swallows=("none",), midtd_sw=("none",))
     if tier == "quick":
         return [
-            (Harness(("p", "t", "pt"), label="delivery "), 4, 3),
+            (Harness(("p", "t", "pt"), midtd_sims=("p",), label="delivery "), 4, 3),
             (Harness(("t", "eac", "es", "tf", "cr", "tf0", "es_mv", "tf_mv", "es_h3", "eac+es", "tf+tf"), statuses=(), undef=False,
-                     inject=(), teardown=False, midtd=True, midtd_sw=("none",), label="regions "), 3, 2),
+                     inject=(), teardown=False, midtd=True, midtd_sw=("none",), midtd_sims=ANN1, label="regions "), 3, 2),
             (Harness(("p", "eac"), n_regions=2, label="multi-region ", **multi), 4, 1),
         ]
     return [
-        (Harness(("p", "t", "pt"), label="delivery "), 6, 3),
+        (Harness(("p", "t", "pt"), midtd_sims=("p",), label="delivery "), 6, 3),
         (Harness(("t", "eac", "es", "tf", "cr", "tf0", "es_mv", "tf_mv", "es_h3", "eac+es", "tf+tf"), statuses=("502",),
-                 undef=False, inject=("ev",), teardown=False, midtd=True, midtd_sw=("none",), label="regions "), 4, 3),
+                 undef=False, inject=("ev",), teardown=False, midtd=True, midtd_sw=("none",), midtd_sims=ANN1, label="regions "), 4, 3),
         (Harness(("p", "eac"), n_regions=2, label="multi-region ", **multi), 5, 2),
         (Harness(("p", "eac"), n_regions=3, label="multi-region(3) ", **multi), 4, 1),
     ]
@@ -699,5 +702,6 @@ def replay(witness):
                 inject=tuple(cfg.get("inject", ("ev", "msg"))), teardown=cfg.get("teardown", True), rep=cfg.get("rep", True),
                 lost=cfg.get("lost", True), n_regions=int(cfg.get("n_regions", 1)), midtd=cfg.get("midtd"),
                 midtd_sw=tuple(cfg.get("midtd_sw", ("all",))),
+                midtd_sims=tuple(cfg["midtd_sims"]) if cfg.get("midtd_sims") is not None else None,
                 swallows=tuple(cfg.get("swallows", ("none", "first", "all"))))
     return explore.replay_history(h, witness["history"])
